@@ -18,11 +18,17 @@ var SigmaRange = []string{"a", "5", "*", `"s"`, ":", ">", "=", "TO", "[", "]", "
 // SigmaTiny is a bracket/prefix alphabet for long exhaustive sequences (grouping and field syntax).
 var SigmaTiny = []string{"a", "(", ")", ":", "NOT", "+"}
 
+// SigmaAmount concentrates on the suffix operators and what may follow them: amounts that are
+// zero, fractional, equal to the defaults, padded, negative, exponent-spelled, quoted or words.
+var SigmaAmount = []string{"a", `"q s"`, "f", ":", "~", "^", "0", "0.5", "1", "00", "-1", "2.5", "1e3", `"2"`, "inf", "(", ")", "AND"}
+
 // Fragments are well-formed pieces for random longer sequences.
 var Fragments = append(append([]string{}, Sigma...), "a:b", "a : 5", "f:[1 TO 5]", "f:{* TO b}", "f:(x OR y)", "f:(x OR (y OR z))", "f:(x OR x)", "f:(x OR y OR z*)", "a:>5", "a:<=2",
 	"( a OR b )", "(+a):b", "( a ):b", "a:( b )", "NOT a", "+ a", "- a", "a ~ 2", "a ^ 1.5", "a AND b", "a OR b", `"p q"`, "w*", "/r e/", `/a\\/`, "5:x", "-٣", "18446744073709551616", "18446744073709551620", "-18446744073709551620", "20000000000000000000", "-9223372036854775808", "9223372036854775807", "a:99999999999999999999", "a~18446744073709551620", "a:(b AND c)", "a:(NOT b)", "a:b:c", "a:(b:c)",
 	"010", "a:017", "a:[010 TO 020]", "a:(b:c:d)", "k:>(a:b:c)", "NOT a:b:c", "+a:b:c", "f:(NOT (a b):c*)", "a:((x OR y):z)", "f:(u:v:(1 OR 2))", "a:b:c~", "(a b):c^2",
-	"a:b:>5", "(a OR b):>5", "(a b):<=3", "a:b:[1 TO 2]", "(a OR b):{1 TO 5}", "(NOT a):[* TO 10]", "a:[1 TO 2]:<7", "(a):b", "(a):>5", "(a):[1 TO 2]", `a:["*" TO 5]`, `a:[\* TO 5]`, `a:{"b?" TO "/x/"}`, `b*\\\`, `a:b*\\\`)
+	"a:b:>5", "(a OR b):>5", "(a b):<=3", "a:b:[1 TO 2]", "(a OR b):{1 TO 5}", "(NOT a):[* TO 10]", "a:[1 TO 2]:<7", "(a):b", "(a):>5", "(a):[1 TO 2]", `a:["*" TO 5]`, `a:[\* TO 5]`, `a:{"b?" TO "/x/"}`, `b*\\\`, `a:b*\\\`,
+	"a~0", "a~0.5", "a~0.8", `"q s"~0.9`, "a~1", "a~00", "f:b~0", "(a OR b)~0", "a^0", "a^0.5", "a^1", "a^1.0", "a^1e3", `a^"2"`, "a^inf", "a~-1", "a^-2", "a~1.5", "f:5~0.5", "7~0.5", `f:("" OR b)`, `f:""`, `""`,
+	"'x'b", "'x y'AND'z'", `"p"q`, `/r/s`, "f:'x'OR g:z")
 
 // TokSeqs is the space of all token sequences of length 1..L over an alphabet, joined by Sep.
 type TokSeqs struct {
